@@ -5,13 +5,15 @@ from units import U
 
 ID = 'C06'
 LEVEL = 'proof'
-TIE = {'condorcet.pairwise_wins/beat_counts/CondorcetWinner/_smith_schwartz_set': 'correspondence'}
+TIE = {'condorcet.pairwise_wins/beat_counts/CondorcetWinner/_smith_schwartz_set/_schwartz_set (+ RankedPairs._is_path as used by it)': 'correspondence'}
 RULE = ('corpus; exhaustive: every relation shape on 2..3 candidates (each unordered pair: a>b, b>a, tie, absent, one-sided, zero-sided; '
         '4 candidates sampled quick / complete thorough) through CondorcetWinner, SmithSet, SchwartzSet; random: 3..6 candidates, '
         'profile-derived (truncation, shared ranks, both unranked_at_bottom), sparse, dense with ties, forced Condorcet winners; '
+        'schwartz-boundary: 3..6 candidates built from unbeaten groups (mutually tied candidates, cycles, lone candidates) stacked in levels '
+        'with ties / absent pairs between groups of the top level, dictionary order shuffled, optionally sparse (zero-sided pairs dropped); '
         'outputs compared as sets with the model AND with brute-force references over all candidate subsets. '
         'non-trivial = a tie, a cycle or a missing reverse pair; distinct by case hash')
-PARTIAL = ['Schwartz set: refuted on the pinned tree (known finding C06-schwartz); reference checker decides it per case']
+PARTIAL = []
 TRUSTED = []
 KIND = {'cw': 0, 'smith': 1, 'schwartz': 2}
 
@@ -49,9 +51,8 @@ def spec(c, io, mo):
 
 
 def known_class(c, io, mo):
-    if canon(c, io) != canon(c, mo):
-        return None
-    return {'schwartz': 'C06-schwartz', 'schwartz-sparse': 'C06-schwartz', 'smith-sparse': 'C06-smith-sparse'}.get(c.get('_class'))
+    # no open finding: C06-smith-sparse and C06-schwartz are repaired (status fixed) - their return is a VIOLATION
+    return None
 
 
 def nontrivial(c):
@@ -82,6 +83,63 @@ def gen_random(rng, count):
         yield from three(v, **({'names': 'ints0'} if rng.random() < 0.3 else {}))
 
 
+def gen_schwartz_boundary(rng, count):
+    """pairwise dictionaries aimed at the Schwartz clause: the candidates are split into groups (a lone candidate, a set of
+    mutually tied candidates, a cycle of strict defeats), the groups are stacked in levels - every member of a higher level
+    group beats (or, with some probability, only ties) the members of lower groups - and groups of the same level tie each
+    other or leave the pair unranked: several unbeaten groups, tied unbeaten candidates, cycles next to tied outsiders."""
+    for _ in range(count):
+        m = rng.randint(2, 6)
+        ids = list(range(1, m + 1))
+        rng.shuffle(ids)
+        groups = []
+        while ids:
+            k = min(len(ids), rng.choice([1, 1, 2, 2, 3, 3, 4]))
+            groups.append((ids[:k], rng.choice(['tied', 'cycle']) if k >= 2 else 'lone', rng.randint(0, 2)))
+            ids = ids[k:]
+        scale = rng.choice([1, 1, 1, 7, 10 ** 25])
+        d = {}
+
+        def put(a, b, x, y):
+            d[(a, b)], d[(b, a)] = x * scale, y * scale
+        for members, shape, _lvl in groups:
+            for i, a in enumerate(members):
+                for j, b in enumerate(members):
+                    if i < j:
+                        if shape == 'tied':
+                            t = rng.randint(0, 3)
+                            put(a, b, t, t)
+                        elif (j - i) % len(members) == 1 and not (len(members) == 2):
+                            put(a, b, 3, 1)          # i beats its successor ...
+                        elif len(members) >= 3 and i == 0 and j == len(members) - 1:
+                            put(b, a, 3, 1)          # ... and the last beats the first
+                        elif len(members) == 2:
+                            put(a, b, 2, 2)          # a two-cycle does not exist: a tie
+                        else:
+                            t = rng.randint(0, 2)    # chords of the cycle: ties or strict either way
+                            put(a, b, t + rng.choice([0, 0, 1]), t + rng.choice([0, 0, 1]))
+        for gi, (ma, _sa, la) in enumerate(groups):
+            for mb, _sb, lb in groups[gi + 1:]:
+                for a in ma:
+                    for b in mb:
+                        if la == lb or rng.random() < 0.25:
+                            t = rng.randint(0, 2)
+                            put(a, b, t, t)
+                        elif la > lb:
+                            put(a, b, rng.randint(2, 5), rng.randint(0, 1))
+                        else:
+                            put(b, a, rng.randint(2, 5), rng.randint(0, 1))
+        items = list(d.items())
+        rng.shuffle(items)
+        if rng.random() < 0.4:       # sparse: a pair nobody ranked is left out (one direction or both)
+            items = [(p, n) for p, n in items if n or rng.random() < 0.5]
+        v = [[[a, b], n] for (a, b), n in items]
+        if len(pw.cands(v)) >= 2:
+            yield dict(unit='condorcet', kind='schwartz', votes=v)
+            if rng.random() < 0.3:
+                yield dict(unit='condorcet', kind='smith', votes=v)
+
+
 def corpus():
     import os, json, glob
     for p in sorted(glob.glob(os.path.join(common.VERIF, 'corpus', ID, '*.json'))):
@@ -97,6 +155,7 @@ def explore(ctx, widen=1):
     if ctx.tier == 'quick':
         ex4 = ctx.rng.sample(ex4, 600)
     ctx.differential('shapes-4', [c for v in ex4 for c in three(v)], model_line, impl, **kw)
+    ctx.differential('schwartz-boundary', gen_schwartz_boundary(ctx.rng, ctx.n(1500, 20000) * widen), model_line, impl, **kw)
     ctx.differential('random', gen_random(ctx.rng, ctx.n(1200, 20000) * widen), model_line, impl, **kw)
 
 
